@@ -3,6 +3,7 @@ package replayers
 import (
 	"errors"
 	"fmt"
+	"math"
 	"strconv"
 	"time"
 
@@ -127,13 +128,16 @@ func genValidCase(t *rapid.T) Case {
 	c := Case{Kind: "valid", EmptyIDSerial: -1}
 	c.Auto = rapid.Bool().Draw(t, "auto")
 	c.TTL = rapid.OneOf(rapid.IntRange(1, 5), rapid.IntRange(1, 20)).Draw(t, "ttl")
+	if stats.Pct(t, "ttlforever") >= 93 {
+		c.TTL = -1
+	}
 	switch rapid.IntRange(0, 4).Draw(t, "gckind") {
 	case 0:
 		c.GCInterval = 0
 	case 1:
 		c.GCInterval = -1
 	case 2:
-		c.GCInterval = rapid.IntRange(1, c.TTL).Draw(t, "gci")
+		c.GCInterval = rapid.IntRange(1, max(c.TTL, 1)).Draw(t, "gci")
 	default:
 		c.GCInterval = rapid.IntRange(1, 40).Draw(t, "gci")
 	}
@@ -286,6 +290,9 @@ func newWorld(c Case, v *stats.Verdict) (*world, error) {
 		return w, nil
 	}
 	w.m.ttl = time.Duration(c.TTL) * tick
+	if c.TTL < 0 {
+		w.m.ttl = time.Duration(math.MaxInt64) // "keep forever": documented as technically possible
+	}
 	r, err := sse.NewValidReplayer(w.m.ttl, c.Auto)
 	if err != nil {
 		return nil, err
@@ -310,6 +317,20 @@ func prefillTopics(i int) []string {
 	return out
 }
 
+// aliased returns the topic set as a slice that shares its backing array with other topic
+// sets whenever it is a prefix of the canonical list (callers commonly slice one array).
+func aliased(topics []string) []string {
+	if len(topics) > len(allTopics) {
+		return topics
+	}
+	for i, tp := range topics {
+		if tp != allTopics[i] {
+			return topics
+		}
+	}
+	return allTopics[:len(topics)]
+}
+
 // put performs a (valid) Put and checks its result.
 func (w *world) put(op Op) string {
 	m := w.m
@@ -327,7 +348,7 @@ func (w *world) put(op Op) string {
 		msg.ID = sse.ID(id)
 	}
 	before := msg.String()
-	got, err := w.rep.Put(msg, op.Topics)
+	got, err := w.rep.Put(msg, aliased(op.Topics))
 	if err != nil {
 		return fmt.Sprintf("valid Put(s%d, topics %q) was rejected: %v", serial, op.Topics, err)
 	}
